@@ -427,6 +427,129 @@ func genC10(r *gen.Rand) (Input, string) {
 	return in, "runs"
 }
 
+// sim level: the real CreateEnvironment, START_ACTIVITY with real tasks and TeardownEnvironment of
+// the in-process core.  Hooks sit on leave_<state> (run by the teardown, all weights), on the
+// moments of START_ACTIVITY, and on DESTROY / after_DESTROY as calls and as hook tasks at a few
+// weights so that the two names collide; awaits in place, at another weight, at a point of a
+// later operation, or nowhere (cancelled at teardown).
+var destroyWeights = []int{-2, -1, 0, 0, 1, 1, 2}
+
+func genSim(r *gen.Rand, runningPct int) (Input, string) {
+	in := Input{Level: "sim", Init: "CONFIGURED"}
+	running := r.Intn(100) < runningPct
+	state := "CONFIGURED"
+	kind := "sim-teardown"
+	switch {
+	case running && r.Chance(1, 6):
+		in.Ops = []Op{{Ev: "START_ACTIVITY", Real: true}, {Ev: "STOP_ACTIVITY", Real: true}, {Ev: "TEARDOWN"}}
+		kind = "sim-start-stop-teardown"
+	case running:
+		in.Ops = []Op{{Ev: "START_ACTIVITY", Real: true}, {Ev: "TEARDOWN"}}
+		state = "RUNNING"
+		kind = "sim-teardown-running"
+	default:
+		in.Ops = []Op{{Ev: "TEARDOWN"}}
+	}
+	id := 0
+	add := func(h Hook) { id++; h.Id = id; in.Hooks = append(in.Hooks, h) }
+	never := []string{"after_NOTHING", "DESTROY+1", "enter_DONE", "after_EXIT-1"}
+	// leave_<state> hooks of the teardown
+	for k := r.Range(0, 3); k > 0; k-- {
+		tw := weightPool[r.Intn(len(weightPool))]
+		trig := "leave_" + state + wexpr(r, tw)
+		await := trig
+		switch r.Intn(5) {
+		case 0:
+			await = "leave_" + state + wexpr(r, weightPool[r.Intn(len(weightPool))])
+		case 1:
+			await = r.Pick(never)
+		}
+		add(Hook{Kind: "call", Trig: trig, Await: await, Crit: r.Chance(1, 2)})
+	}
+	if running {
+		startMoments := []string{"before_START_ACTIVITY", "leave_CONFIGURED", "enter_RUNNING", "after_START_ACTIVITY"}
+		for k := r.Range(0, 3); k > 0; k-- {
+			trig := r.Pick(startMoments) + wexpr(r, weightPool[r.Intn(len(weightPool))])
+			await := trig
+			switch r.Intn(4) {
+			case 0:
+				await = r.Pick([]string{"leave_RUNNING", "leave_RUNNING-1", "after_STOP_ACTIVITY", "before_STOP_ACTIVITY+1", "leave_CONFIGURED+2"})
+			case 1:
+				await = r.Pick(never)
+			}
+			add(Hook{Kind: "call", Trig: trig, Await: await, Crit: false})
+		}
+	}
+	// DESTROY / after_DESTROY
+	names := []string{"DESTROY", "after_DESTROY"}
+	for k := r.Range(1, 4); k > 0; k-- {
+		w := destroyWeights[r.Intn(len(destroyWeights))]
+		t := r.Pick(names) + wexpr(r, w)
+		add(Hook{Kind: "call", Trig: t, Await: t, Crit: r.Chance(1, 3)})
+	}
+	usedTask := map[string]bool{}
+	for k := r.Range(0, 2); k > 0; k-- {
+		w := destroyWeights[r.Intn(len(destroyWeights))]
+		n := r.Pick(names)
+		key := fmt.Sprintf("%s%+d", n, w)
+		if usedTask[key] {
+			continue
+		}
+		usedTask[key] = true
+		t := n
+		if w != 0 {
+			t = key
+		}
+		// a call of the same name and weight in front of the task, so that the trigger commands of two
+		// weights are always separated by a call record
+		add(Hook{Kind: "call", Trig: t, Await: t, Crit: false})
+		add(Hook{Kind: "task", Trig: t, Await: t, Crit: r.Chance(1, 3)})
+	}
+	calls := callIds(in.Hooks, func(Hook) bool { return true })
+	for i := range in.Ops {
+		in.Ops[i].Slow = subset(r, calls, 1, 5)
+		if r.Chance(1, 3) {
+			in.Ops[i].Fail = subset(r, calls, 1, 4)
+		}
+	}
+	// a failing critical hook in START_ACTIVITY would change the plan: keep START clean
+	if running {
+		in.Ops[0].Fail = nil
+	}
+	return in, kind
+}
+
+func simCorpus() ([]Input, []string) {
+	var ins []Input
+	var kinds []string
+	add := func(k string, in Input) { ins = append(ins, in); kinds = append(kinds, k) }
+	add("sim-destroy-collision", Input{Level: "sim", Init: "CONFIGURED", Hooks: []Hook{
+		{Id: 1, Kind: "call", Trig: "leave_CONFIGURED-1", Await: "leave_CONFIGURED-1"},
+		{Id: 2, Kind: "call", Trig: "leave_CONFIGURED+1", Await: "after_NOTHING"},
+		{Id: 3, Kind: "call", Trig: "DESTROY+1", Await: "DESTROY+1"},
+		{Id: 4, Kind: "call", Trig: "after_DESTROY+1", Await: "after_DESTROY+1"},
+		{Id: 5, Kind: "call", Trig: "DESTROY-2", Await: "DESTROY-2"},
+		{Id: 6, Kind: "task", Trig: "DESTROY-2"},
+		{Id: 7, Kind: "call", Trig: "after_DESTROY+3", Await: "after_DESTROY+3"},
+		{Id: 8, Kind: "task", Trig: "after_DESTROY+3"},
+		{Id: 9, Kind: "call", Trig: "after_DESTROY-2", Await: "after_DESTROY-2"}},
+		Ops: []Op{{Ev: "TEARDOWN"}}})
+	add("sim-teardown-running", Input{Level: "sim", Init: "CONFIGURED", Hooks: []Hook{
+		{Id: 1, Kind: "call", Trig: "leave_RUNNING", Await: "leave_RUNNING"},
+		{Id: 2, Kind: "call", Trig: "enter_RUNNING", Await: "after_STOP_ACTIVITY"},
+		{Id: 3, Kind: "call", Trig: "after_START_ACTIVITY", Await: "leave_RUNNING+5"},
+		{Id: 4, Kind: "call", Trig: "leave_RUNNING-1", Await: "after_NOTHING"},
+		{Id: 5, Kind: "call", Trig: "DESTROY", Await: "DESTROY"},
+		{Id: 6, Kind: "call", Trig: "after_DESTROY", Await: "after_DESTROY"}},
+		Ops: []Op{{Ev: "START_ACTIVITY", Real: true}, {Ev: "TEARDOWN", Slow: []int{4}}}})
+	add("sim-start-stop-teardown", Input{Level: "sim", Init: "CONFIGURED", Hooks: []Hook{
+		{Id: 1, Kind: "call", Trig: "leave_CONFIGURED+1", Await: "leave_CONFIGURED+1"},
+		{Id: 2, Kind: "call", Trig: "before_START_ACTIVITY", Await: "after_STOP_ACTIVITY+1"},
+		{Id: 3, Kind: "call", Trig: "DESTROY-1", Await: "DESTROY-1"}},
+		Ops: []Op{{Ev: "START_ACTIVITY", Real: true}, {Ev: "STOP_ACTIVITY", Real: true}, {Ev: "TEARDOWN"}}})
+	return ins, kinds
+}
+
 // trigger expressions: valid ones and a malformed stream
 func genParse(r *gen.Rand) (Input, string) {
 	names := []string{"before_CONFIGURE", "enter_RUNNING", "leave_CONFIGURED", "after_START_ACTIVITY", "DESTROY", "x", "", "a_b"}
@@ -575,8 +698,13 @@ func corpus(prop string) ([]Input, []string) {
 
 func generate(prop string, o gen.Opts) ([]Input, []string) {
 	ins, kinds := corpus(prop)
+	if prop == "C08" || prop == "C10" {
+		si, sk := simCorpus()
+		ins, kinds = append(ins, si...), append(kinds, sk...)
+	}
 	r := gen.NewRand(o.Seed)
 	rMain, rParse := r.Fork(), r.Fork()
+	rSim := r.Fork()
 	for i := 0; i < o.N; i++ {
 		var in Input
 		var k string
@@ -584,13 +712,19 @@ func generate(prop string, o gen.Opts) ([]Input, []string) {
 		case "C08":
 			if i%10 == 9 {
 				in, k = genParse(rParse)
+			} else if i%10 == 4 {
+				in, k = genSim(rSim, 40)
 			} else {
 				in, k = genC08(rMain)
 			}
 		case "C09":
 			in, k = genC09(rMain)
 		default:
-			in, k = genC10(rMain)
+			if i%6 == 5 {
+				in, k = genSim(rSim, 85)
+			} else {
+				in, k = genC10(rMain)
+			}
 		}
 		ins = append(ins, in)
 		kinds = append(kinds, k)
